@@ -573,7 +573,7 @@ if self.base_settings.allow_compression {
 }
 
 impl<B: Body> PreparedRequest<B> {
-//@@ fn src/request/mod.rs impl<B:~Body>~PreparedRequest<B> send props=C09,C10,C08,C05
+//@@ fn src/request/mod.rs impl<B:~Body>~PreparedRequest<B> send props=C09,C10,C08,C05,C19
 //@@ closure
 |timeout|
 //@@ =>
@@ -619,6 +619,14 @@ let mut stream = BaseStream::connect(
                 assert(dialled(&stream) == (hop, proxy)); // id: connected_for_this_hops_url_and_proxy [C08,C10]
                 assert(host_is_for(&self.sp_headers(), if url_scheme_is(&hop, "http") && proxy is Some { &proxy.unwrap() } else { &hop })); // id: host_field_belongs_to_this_hop [C08,C10]
             }
+//@@ splice after_stmt
+let resp = parse_response(
+//@@ with
+            let ghost parsed = resp;
+//@@ splice before
+return Ok(resp);
+//@@ with
+                proof { assert(resp == parsed); } // id: response_handed_over_as_parsed_nothing_read_from_it [C19]
 //@@ splice before
 redirections += 1;
 //@@ with
@@ -630,6 +638,7 @@ redirections += 1;
 loop
 //@@ with
             proof { assert(Some(url) == redirect_target(&hop, utf8_lossy(hv_bytes(&field_vals(&resp.sp_headers(), location_name())[0])))); } // id: next_hop_is_location_resolved_against_this_hop [C09]
+            proof { assert(resp == parsed); } // id: redirecting_response_left_unread_when_the_next_hop_is_dialled [C19]
 //@@ contract
         requires old(self).sp_settings().max_redirections < u32::MAX, // id: redirect_counter_cannot_overflow [C05]
         ensures
